@@ -18,7 +18,9 @@ SNAMES = ['s1.svc', 's2.svc']
 STYPES = [None, 'login', 'dronecheck', 'login-ipr']
 RNAMES = ['r1', 'r2']
 RKINDS = [None, {'class': 'k1', 'account': 'ka*'}, {'class': 'k2', 'account': 'kb*'}, {'class': 'k1'}, {'class': 'k1', 'account': 'kb*'}, {'account': 'ka*'},
-          {'class': 'k1', 'account': 'KA*'}]       # differs from the first kind in letter case only (globs are case-sensitive: it matches no probe account)
+          {'class': 'k1', 'account': 'KA*'},       # differs from the first kind in letter case only (globs are case-sensitive: it matches no probe account)
+          {'class': 'k1', 'address': '10.9.0.0/16'},   # an address criterion that excludes the probe clients (removing the line must widen the rule)
+          {'class': 'k1', 'trust_username': 'yes'}]    # catch-all that upgrades an untrusted ident
 ABSENT = 'section-absent'                       # the reloaded file has no iauth_xquery{} / iauth_class{} section at all
 R2KINDS = [None, {'class': 'k3'}]          # the second rule: absent or a catch-all that sorts after r1
 FIXED_RULES = [('r1', {'class': 'k1', 'account': 'ka*'}), ('r2', {'class': 'k2'})]
@@ -58,6 +60,7 @@ def probes(serial):
     P['no-s1'] = base + ['1 P :+x ka1 pw', '-1 X s1.svc %s :NO refused by one' % tag, '-1 X s2.svc %s :OK' % tag, '1 H']
     P['no-s2'] = base + ['1 P :+x ka1 pw', '-1 X s2.svc %s :NO refused by two' % tag, '-1 X s1.svc %s :OK ka1' % tag, '1 H']
     P['nopass'] = base + ['-1 X s1.svc %s :OK' % tag, '-1 X s2.svc %s :OK' % tag, '1 H']
+    P['untrusted-ident'] = ['1 C 10.0.0.1 1111 10.9.9.9 6667', '1 N host1.example.net', '1 u ~ident1', '1 n Nick1', '1 U user1 :Real Name', '-1 X s1.svc %s :OK' % tag, '-1 X s2.svc %s :OK' % tag, '1 H']
     P['hurry'] = ['1 C 10.0.0.1 1111 10.9.9.9 6667', '1 P :+x kb1 pw', '1 H', '-1 X s2.svc %s :OK kb1:3' % tag, '-1 X s1.svc %s :OK kb1:3' % tag]
     return P
 
